@@ -133,6 +133,25 @@ Definition move_ode_rhs (s : cstate) (ode : ceq) (y t : nat) : cstate * nat :=
       ceqs := remove_eq (ceqs s) (q_lhs ode) ++ [{| q_lhs := CLV w; q_rhs := q_rhs ode |}];
       cunits := cunits s; cqnext := cqnext s |}, w).
 
+(* one step of the free-variable rewriting: the ODE of state y (if it has one, with respect to v) is moved into a new
+   variable w, and d y / d n = w / cf is added *)
+Definition free_step (v n : nat) (cf : expr) (acc : cstate * list ((nat * nat) * nat)) (y : nat)
+  : cstate * list ((nat * nat) * nat) :=
+  let '(st, rp) := acc in
+  match ode_def st y with
+  | Some ode =>
+      match q_lhs ode with
+      | CLD _ t' =>
+          if Nat.eqb t' v then
+            let '(s', w) := move_ode_rhs st ode y v in
+            ({| cvars := cvars s'; ceqs := ceqs s' ++ [{| q_lhs := CLD y n; q_rhs := ediv (var w) cf |}];
+                cunits := cunits s'; cqnext := cqnext s' |}, rp ++ [((y, v), w)])
+          else acc
+      | _ => acc
+      end
+  | None => acc
+  end.
+
 Inductive direction := DInput | DOutput.
 
 (* convert_variable: returns the new state and the variable to use *)
@@ -202,21 +221,7 @@ Definition convert_variable (s : cstate) (v : nat) (target : uvec) (d : directio
                       match free with
                       | Some t =>
                           if Nat.eqb t v then
-                            fold_left (fun acc y =>
-                              let '(st, rp) := acc in
-                              match ode_def st y with
-                              | Some ode =>
-                                  match q_lhs ode with
-                                  | CLD _ t' =>
-                                      if Nat.eqb t' v then
-                                        let '(s', w) := move_ode_rhs st ode y v in
-                                        ({| cvars := cvars s'; ceqs := ceqs s' ++ [{| q_lhs := CLD y n; q_rhs := ediv (var w) cf |}];
-                                            cunits := cunits s'; cqnext := cqnext s' |}, rp ++ [((y, v), w)])
-                                      else acc
-                                  | _ => acc
-                                  end
-                              | None => acc
-                              end) (seq 0 (length (cvars s2))) (s2, repl1)
+                            fold_left (free_step v n cf) (seq 0 (length (cvars s2))) (s2, repl1)
                           else (s2, repl1)
                       | None => (s2, repl1)
                       end in
